@@ -1,9 +1,10 @@
 #!/bin/bash
 # wave4_confirm.sh <area> <k> <where>  — confirmation of a fourth-wave mutant in its scratch worktree /tmp/wx-<area>
-a="$1"; k="$2"; where="$3"; wt=/tmp/wx-$a
+a="$1"; k="$2"; where="$3"; wt=${WTPREFIX:-/tmp/wx-}$a
 case "$where" in
   demo) demo="cd _mutants/demo && cargo test --offline --test m${k}_demo" ;;
   vm)   demo="cp _mutants/m${k}_demo.rs vm/tests/m${k}_demo.rs && cargo test -p pest_vm --test m${k}_demo --offline; rc=\$?; rm -f vm/tests/m${k}_demo.rs; exit \$rc" ;;
+  meta) demo="mkdir -p meta/tests && cp _mutants/m${k}_demo.rs meta/tests/m${k}_demo.rs && cargo test -p pest_meta --test m${k}_demo --offline; rc=\$?; rm -rf meta/tests; exit \$rc" ;;
   pest) demo="cp _mutants/m${k}_demo.rs pest/tests/m${k}_demo.rs && cargo test -p pest --features pretty-print --test m${k}_demo --offline; rc=\$?; rm -f pest/tests/m${k}_demo.rs; exit \$rc" ;;
 esac
 echo "$demo" > /tmp/confirm4-$a-m$k.cmd
